@@ -32,6 +32,14 @@ class _Extras:
             return None
         return sep.join((first,) + words) + f"^{high}"
 
+    def paint(self, what: str, *more: str, bold: bool = False, dim: bool = False, blink: bool = False,
+              colour: str = "red", count: int = 1) -> str:
+        """Several flags with letters of their own (-b, -d, -B) and two options with a value (-c, -C): what a client may
+        write in one single-dash string (`-bdB`, `-bdcred`, `-bdC 3`)."""
+        self.__dict__.setdefault("_journal", []).append(("paint", what, more, bold, dim, blink, colour, count))
+        marks = ("b" if bold else "") + ("d" if dim else "") + ("B" if blink else "")
+        return f"{what}{''.join('/' + x for x in more)}:{marks}:{colour}*{count}"
+
     def pick(self, items: Iterable[int], scale: float = 1.0) -> float:
         """A literal container and a float."""
         self.__dict__.setdefault("_journal", []).append(("pick", tuple(items), scale))
